@@ -133,7 +133,7 @@ func init() {
 					}
 				case *ast.CallExpr:
 					if prog.SelField(pi, x.Fun) == assign && len(x.Args) == 2 && r.isParam(push, x.Args[0], 0) {
-						if l, ok := linearOf(pi, nil, x.Args[1]); ok && l[""] == -1 {
+						if l, ok := linearOf(pi, nil, deref(pi, x.Args[1])); ok && l[""] == -1 {
 							posAsg = x.Pos()
 						}
 					}
